@@ -123,8 +123,8 @@ def specC10 (hooks : List Hook) (reqs : List Req) (tr : ITrace) : Bool :=
 def specC10Relaxed (hooks : List Hook) (reqs : List Req) (tr : ITrace) : Bool :=
   walk false {} (samplesOf hooks reqs .STANDBY (segments tr []))
 
-/-- Excluded hypothesis of the "set at most once" theorem (known finding
-    `end_stamp_rewritten_after_failed_teardown`): no teardown whose task release fails. -/
+/-- The class of the repaired finding `end_stamp_rewritten_after_failed_teardown` (its excluded hypothesis while
+    after_STOP_ACTIVITY was unguarded): no teardown whose task release fails. No longer excused by the driver. -/
 def noFailedTeardown (reqs : List Req) : Bool :=
   reqs.all fun | .teardown _ r1 r2 => r1 && r2 | _ => true
 
